@@ -8,9 +8,10 @@
 (*   target            pi(u) = 2^(beta*e(u)), e an even integer table,       *)
 (*                     beta = b/2, b in {1,2}  (beta = 0 never reaches the   *)
 (*                     kernel)                                               *)
-(*   proposal law      symmetric integer weights: size s has weight w for   *)
-(*                     each of +s and -s; coordinates independent (the code  *)
-(*                     multiplies a diagonal Cholesky factor by randn(d))    *)
+(*   proposal law      integer-weighted alphabet of signed increments with   *)
+(*                     p(z) = p(-z) (ASSUME AlphabetsSymmetric);             *)
+(*                     coordinates independent (the code multiplies a        *)
+(*                     diagonal Cholesky factor by randn(d))                 *)
 (*   boundary          per coordinate hard | periodic | reflective; the maps *)
 (*                     are Fold.tla's (resolution 2M)                        *)
 (*                                                                          *)
@@ -29,6 +30,10 @@
 (* walker order, then ONE rand(n) call supplies the accept uniforms); the    *)
 (* harness replays triples of enumerated transitions in one run() call.      *)
 (*                                                                          *)
+(* Init enumerates (case, boundary kinds, table, beta); Weights tabulates the *)
+(* target and the whole matrix P (the weight invariants are stated there);   *)
+(* Walker picks the current state u; then the sweep.  Part (b) of C03 (tpCN  *)
+(* reversibility identity over rationals) is in KernelTpcn.tla.              *)
 (* All state variables are integers, strings or nested sequences so that     *)
 (* vlib.fastdump can read the dump.                                          *)
 (***************************************************************************)
